@@ -12,26 +12,41 @@ pub static mut EV_SIZE: Option<usize> = None;
 pub static mut EV_CALLS: usize = 0;
 pub static mut EV_SAW_GUESS: bool = false;
 
-/// Contract stub for asm::resolver::eval::eval: returns the harness-chosen value; the
-/// Err outcome records an error first (the evaluator's own contract).
-pub fn st_eval(report: &mut diagn::Report, _opts: &asm::AssemblyOptions, _fs: &mut dyn util::FileServer, _decls: &asm::ItemDecls, _defs: &asm::ItemDefs, ctx: &asm::ResolverContext, _ectx: &mut expr::EvalContext, _e: &expr::Expr) -> Result<expr::Value, ()> {
+/// Contract stub for asm::resolver::eval::eval: hands out the value the harness prepared
+/// (`pre_*`), or - when nothing was prepared - records an error and returns Err.
+///
+/// Kani 0.68 artefact worked around here: a function that constructs a heap-carrying
+/// `expr::Value` variant inside a stub body, or several variants under a symbolic
+/// selector, yields enum values whose empty `Vec`s read back with capacity 1, which
+/// shows up as spurious `__rust_dealloc` failures that also cut the path. So every
+/// harness fixes the result kind and builds the value in its own body.
+pub static mut PRE: Option<expr::Value> = None;
+pub fn st_eval_pre(report: &mut diagn::Report, _opts: &asm::AssemblyOptions, _fs: &mut dyn util::FileServer, _decls: &asm::ItemDecls, _defs: &asm::ItemDefs, _ctx: &asm::ResolverContext, _ectx: &mut expr::EvalContext, _e: &expr::Expr) -> Result<expr::Value, ()> {
     unsafe {
         EV_CALLS += 1;
-        match EV_KIND {
-            0 => Ok(expr::Value::make_integer(BigInt::new(EV_VAL, EV_SIZE))),
-            1 => {
-                // the real evaluator yields Unknown only when it may guess
-                if !ctx.can_guess() { report.error("unknown"); return Err(()); }
-                Ok(expr::Value::Unknown)
-            }
-            2 => Ok(expr::Value::FailedConstraint(diagn::Message::error("constraint"))),
-            4 => Ok(expr::Value::Bool(EV_VAL != 0)),
-            _ => {
+        match PRE.take() {
+            Some(v) => Ok(v),
+            None => {
                 report.error("eval failed");
                 Err(())
             }
         }
     }
+}
+pub fn pre_int(v: i64, size: Option<usize>) {
+    unsafe { PRE = Some(expr::Value::make_integer(BigInt::new(v, size))); }
+}
+pub fn pre_unknown() {
+    unsafe { PRE = Some(expr::Value::Unknown); }
+}
+pub fn pre_failed() {
+    unsafe { PRE = Some(expr::Value::FailedConstraint(diagn::Message::error("constraint"))); }
+}
+pub fn pre_bool(b: bool) {
+    unsafe { PRE = Some(expr::Value::Bool(b)); }
+}
+pub fn pre_err() {
+    unsafe { PRE = None; }
 }
 pub fn set_eval(kind: u8, val: i64, size: Option<usize>) {
     unsafe {
@@ -43,11 +58,12 @@ pub fn set_eval(kind: u8, val: i64, size: Option<usize>) {
 }
 
 /// Attaches the evaluator stub and the slice contract on top of the Report model.
+/// The first token documents the result kind the harness prepares.
 #[macro_export]
 macro_rules! step {
-    ($(#[$m:meta])* fn $name:ident() $body:block) => {
+    ($kind:ident; $(#[$m:meta])* fn $name:ident() $body:block) => {
         modelled! {
-            #[kani::stub(customasm::asm::resolver::eval::eval, crate::steps::st_eval)]
+            #[kani::stub(customasm::asm::resolver::eval::eval, crate::steps::st_eval_pre)]
             #[kani::stub(customasm::util::BigInt::slice, crate::model::st_slice)]
             $(#[$m])*
             fn $name() $body
@@ -121,4 +137,124 @@ pub fn data_element_step(n: usize, v: i64, vsize: Option<usize>, kind: u8, first
     std::mem::forget(report);
     std::mem::forget(ast);
     (resolved_ok, is_res_flag, stored)
+}
+
+// ---------------------------------------------------------------- #res / #align / #addr steps
+
+/// Outcome summary of a step.
+pub struct StepOut {
+    pub ok: bool,
+    pub resolved: bool,
+    pub errs: usize,
+}
+
+fn finish(r: &Result<asm::ResolutionState, ()>, report: &diagn::Report) -> StepOut {
+    let out = StepOut { ok: r.is_ok(), resolved: matches!(r, Ok(asm::ResolutionState::Resolved)), errs: errs(report) };
+    // contracts shared by every step (C03-c)
+    if !out.ok { assert!(out.errs > 0, "Err without an error diagnostic"); }
+    if out.resolved { assert!(msgs(report) == 0, "Resolved although a diagnostic was recorded"); }
+    out
+}
+
+/// `#res v`: stored size = v * addr_unit; Resolved => unchanged; final pass undecided => error.
+pub fn res_step(kind: u8, v: i64, unit: usize, prev: usize, last: bool) -> (StepOut, usize) {
+    reset_report_model();
+    set_eval(kind, v, None);
+    let mut report = diagn::Report::new();
+    let decls = empty_decls();
+    let mut defs = asm::defs::init();
+    defs.bankdefs.define(util::ItemRef::new(0), bank(0, unit, 0, None, Some(0), false));
+    defs.res_directives.define(util::ItemRef::new(0), asm::ResDirective { item_ref: util::ItemRef::new(0), reserve_size: prev });
+    let ast = asm::AstDirectiveRes { header_span: sp(), expr: expr::Expr::Literal(sp(), expr::Value::Bool(false)), item_ref: Some(util::ItemRef::new(0)) };
+    let bd = asm::resolver::BankData { cur_position: 0 };
+    let ctx = rctx(&bd, 0, false, last);
+    let opts = asm::AssemblyOptions::new();
+    let mut fs = NoFs;
+    let r = asm::resolver::verif_hooks::resolve_res(&mut report, &opts, &mut fs, &ast, &decls, &mut defs, &ctx);
+    let out = finish(&r, &report);
+    let stored = defs.res_directives.get(util::ItemRef::new(0)).reserve_size;
+    if kind == 0 {
+        let in_u32 = v >= 0 && v <= u32::MAX as i64;
+        if out.ok {
+            assert!(in_u32, "reservation outside the supported magnitude accepted");
+            assert!(stored as u64 == (v as u64) * (unit as u64), "reserved size is not count x address unit");
+            assert!(out.resolved == (stored == prev), "Resolved differs from 'stored value unchanged'");
+        } else {
+            assert!(!in_u32, "supported reservation rejected");
+        }
+    } else if out.ok {
+        assert!(!(last && out.resolved), "undetermined reservation size accepted on the final pass");
+    }
+    if out.ok && !out.resolved && last { assert!(out.errs > 0, "final pass unresolved without a diagnostic"); }
+    std::mem::forget(decls); std::mem::forget(defs); std::mem::forget(report); std::mem::forget(ast);
+    (out, stored)
+}
+
+/// `#align v`
+pub fn align_step(kind: u8, v: i64, prev: usize, last: bool) -> (StepOut, usize) {
+    reset_report_model();
+    set_eval(kind, v, None);
+    let mut report = diagn::Report::new();
+    let decls = empty_decls();
+    let mut defs = asm::defs::init();
+    defs.bankdefs.define(util::ItemRef::new(0), bank(0, 8, 0, None, Some(0), false));
+    defs.align_directives.define(util::ItemRef::new(0), asm::AlignDirective { item_ref: util::ItemRef::new(0), align_size: prev });
+    let ast = asm::AstDirectiveAlign { header_span: sp(), expr: expr::Expr::Literal(sp(), expr::Value::Bool(false)), item_ref: Some(util::ItemRef::new(0)) };
+    let bd = asm::resolver::BankData { cur_position: 0 };
+    let ctx = rctx(&bd, 0, false, last);
+    let opts = asm::AssemblyOptions::new();
+    let mut fs = NoFs;
+    let r = asm::resolver::verif_hooks::resolve_align(&mut report, &opts, &mut fs, &ast, &decls, &mut defs, &ctx);
+    let out = finish(&r, &report);
+    let stored = defs.align_directives.get(util::ItemRef::new(0)).align_size;
+    if kind == 0 {
+        if out.ok {
+            assert!(v >= 0, "negative alignment accepted");
+            assert!(stored as i64 == v, "stored alignment is not the evaluated value");
+            assert!(out.resolved == (stored == prev), "Resolved differs from 'stored value unchanged'");
+            assert!(!(last && out.resolved && v == 0), "alignment 0 accepted on the final pass");
+        } else {
+            assert!(v < 0 || (last && v == 0 && prev == 0), "valid alignment rejected");
+        }
+    } else if out.ok {
+        assert!(!(last && out.resolved), "undetermined alignment accepted on the final pass");
+    }
+    if out.ok && !out.resolved && last { assert!(out.errs > 0, "final pass unresolved without a diagnostic"); }
+    std::mem::forget(decls); std::mem::forget(defs); std::mem::forget(report); std::mem::forget(ast);
+    (out, stored)
+}
+
+/// `#addr v` in a bank with start `start`, unit `unit`, optional size (bits).
+pub fn addr_step(kind: u8, v: i64, start: i64, unit: usize, size: Option<usize>, prev: i64, last: bool) -> (StepOut, i64) {
+    reset_report_model();
+    set_eval(kind, v, None);
+    let mut report = diagn::Report::new();
+    let decls = empty_decls();
+    let mut defs = asm::defs::init();
+    defs.bankdefs.define(util::ItemRef::new(0), bank(0, unit, start, size, Some(0), false));
+    defs.addr_directives.define(util::ItemRef::new(0), asm::AddrDirective { item_ref: util::ItemRef::new(0), address: BigInt::new(prev, None) });
+    let ast = asm::AstDirectiveAddr { header_span: sp(), expr: expr::Expr::Literal(sp(), expr::Value::Bool(false)), item_ref: Some(util::ItemRef::new(0)) };
+    let bd = asm::resolver::BankData { cur_position: 0 };
+    let ctx = rctx(&bd, 0, false, last);
+    let opts = asm::AssemblyOptions::new();
+    let mut fs = NoFs;
+    let r = asm::resolver::verif_hooks::resolve_addr(&mut report, &opts, &mut fs, &ast, &decls, &mut defs, &ctx);
+    let out = finish(&r, &report);
+    let stored = defs.addr_directives.get(util::ItemRef::new(0)).address.maybe_into::<i64>().unwrap();
+    if kind == 0 {
+        assert!(stored == v, "stored address is not the evaluated value");
+        let delta = (v as i128 - start as i128) * unit as i128;
+        let in_bank = v >= start && match size { Some(s) => delta < s as i128, None => true };
+        if out.ok {
+            assert!(out.resolved == (v == prev), "Resolved differs from 'stored value unchanged'");
+            if last && out.resolved { assert!(in_bank, "address outside the bank accepted on the final pass"); }
+        } else {
+            assert!(last && v == prev && !in_bank, "address inside the bank rejected");
+        }
+    } else if out.ok {
+        assert!(!(last && out.resolved), "undetermined address accepted on the final pass");
+    }
+    if out.ok && !out.resolved && last { assert!(out.errs > 0, "final pass unresolved without a diagnostic"); }
+    std::mem::forget(decls); std::mem::forget(defs); std::mem::forget(report); std::mem::forget(ast);
+    (out, stored)
 }
